@@ -507,6 +507,13 @@ class Exec:
                     d = self.new("delta", z3.RealSort())
                     self.side.append(z3.And(d <= z3.RealVal(u), d >= -z3.RealVal(u)))
                     self.assumptions.add("ERR mode: each float op is exact*(1+d), |d|<=2^-24 (float) / 2^-53 (double), fresh d per instruction; results assumed in the normal range")
+                    if ty.kind == "float":
+                        # the model is only valid while the exact result stays in float's normal range: make that an obligation
+                        FMAX = z3.RealVal(fractions.Fraction(0xffffff, 1) * fractions.Fraction(2) ** 104)
+                        FMIN = z3.RealVal(fractions.Fraction(511, 512) * fractions.Fraction(1, 2 ** 126))
+                        self.cur_checks.append(("RANGE:float intermediate overflows (|v| > FLT_MAX) in %s" % op, z3.And(r <= FMAX, r >= -FMAX)))
+                        if not os.environ.get("VP_NO_UNDERFLOW_CHECK"):
+                            self.cur_checks.append(("RANGE:float intermediate underflows (0 < |v| < 2^-126) in %s" % op, z3.Or(r == 0, r >= FMIN, r <= -FMIN)))
                     r = r * (1 + d)
                 return r
         elif self.mode == "UF":
